@@ -1701,7 +1701,12 @@ func (e *mcEngine) block(pending []*mcTx, dt uint64) {
 			if ev, ok := mcFireEvent[mt.kind]; ok && took {
 				fired := mcHasPrefix(gotEvents, ev)
 				if fired && !p.fire {
-					mcViolation(r, "C17/fired-without-quorum", "%s by %s took effect; model: %s (threshold %d of %d)", mt.desc, signerNames(mt.signers), p.why, m.threshold(), len(m.alpha))
+					rule := "C17/fired-without-quorum"
+					if mt.kind == mcCheque && r.Prop == "C19" {
+						// "pays out exactly the cheque amount once the Alphabet approves"
+						rule = "C19/cheque-paid-without-approval"
+					}
+					mcViolation(r, rule, "%s by %s took effect; model: %s (threshold %d of %d)", mt.desc, signerNames(mt.signers), p.why, m.threshold(), len(m.alpha))
 				}
 				if !fired && p.fire {
 					mcViolation(r, "C17/not-fired-at-quorum", "%s by %s completes the quorum (%s) but nothing was announced", mt.desc, signerNames(mt.signers), p.why)
@@ -1908,8 +1913,11 @@ func (e *mcEngine) sweep(h uint32, outsiderHalted []string, removalVoted map[str
 		bad("C17/candidates-mismatch", "%d unknown candidates listed", len(onChain))
 	}
 	// 5. the raw ballot list (Notary disabled): every ballot that still
-	// collects votes equals the model's, and no outsider is among the voters
-	if e.notaryOff {
+	// collects votes equals the model's, and no outsider is among the voters.
+	// Bookkeeping of C17 alone: when C19 is being decided the run goes on, so
+	// that a ballot kept or dropped wrongly is judged by what C19 is about —
+	// the GAS a later invocation moves.
+	if e.notaryOff && r.Prop != "C19" {
 		gotB := map[string]string{}
 		if raw := w.BC.GetStorageItem(w.NeoFS.ID, []byte("ballots")); raw != nil {
 			arr, err := stackitem.Deserialize(raw)
